@@ -8,6 +8,14 @@
 (*   A4 A6 A6z   a text netip.ParseAddr accepts (IPv4, IPv6, IPv6 with zone)    *)
 (*   N Nidn      a text netutil.ValidateDomainName accepts (ASCII / IDN)        *)
 (*   Abad Nbad   a text neither of the two references accepts                   *)
+(*   INV         an "invisible" prefix: a UTF-8 byte order mark (EF BB BF), a   *)
+(*               truncated one (EF, EF BB), U+200B, U+00A0, U+2060, U+00AD.    *)
+(*               Nothing in the hosts format knows these: they are ordinary    *)
+(*               bytes of the field they touch.  The references decide: never  *)
+(*               part of an address, and (being non-ASCII text that Punycode   *)
+(*               absorbs) a valid piece of a name - so INV is a name token:    *)
+(*               a BOM before the address makes the line an AddrErr line, a    *)
+(*               BOM before or alone as a name is a name.                      *)
 (*   CR          a carriage return: just another byte of a field               *)
 (*   CMT         arbitrary comment text; before the first HASH it stands for    *)
 (*               junk that neither reference accepts                            *)
@@ -27,7 +35,7 @@
 EXTENDS Integers, Sequences, FiniteSets
 
 AddrToks == {"A4", "A6", "A6z"}
-NameToks == {"N", "Nidn"}
+NameToks == {"N", "Nidn", "INV"}
 JunkToks == {"Abad", "Nbad", "CR", "CMT"}
 SepToks  == {"SP", "TAB"}
 Tokens   == AddrToks \cup NameToks \cup JunkToks \cup SepToks \cup {"HASH"}
